@@ -280,9 +280,29 @@ func judgeImage(cfg core.Cfg, im image, queries []core.Call, qok []bool, allowed
 	// large enough to force a rotation) is visible, leaves everything else unchanged and survives a
 	// reopen - a recovery that positions the next write wrongly or leaves debris behind shows here
 	if probeAfterRecovery {
-		if msg := probeWrites(cfg, in, dir, queries, qok, matchedState, leaf); msg != nil {
+		if msg := probeWrites(cfg, in, dir, queries, qok, matchedState, leaf, 0); msg != nil {
 			add(msg[0], msg[1]+"@"+im.class, nil, msg[2:], im)
 			return
+		}
+		// the other order on a fresh recovery of the same image: the shortest record first (it ends
+		// inside whatever a longer interrupted record left behind), then the rotation
+		if im.cut > 0 || probeBothOrders {
+			dir2 := core.NewDir()
+			defer os.RemoveAll(dir2)
+			if err := im.fs.Materialise(dir2); err != nil {
+				fmt.Fprintf(os.Stderr, "HARNESS-ERROR: materialise: %v\n", err)
+				os.Exit(2)
+			}
+			core.TheClock.Sec = allowed[0].Now
+			in2 := core.OpenDir(cfg, dir2, allowed[0])
+			bump(leaf, "opens")
+			if in2.OpenErr != nil {
+				add("open-error", ErrClass(in2.OpenErr.Error())+"@"+im.class, nil, []string{"second recovery of the same image: " + in2.OpenErr.Error()}, im)
+				return
+			}
+			if msg := probeWrites(cfg, in2, dir2, queries, qok, matchedState, leaf, 1); msg != nil {
+				add(msg[0], msg[1]+"@"+im.class, nil, msg[2:], im)
+			}
 		}
 		return
 	}
@@ -770,6 +790,9 @@ func powerLossImages(rc *recorded, pt int, leaf *Leaf) []image {
 // recovery (C10, C16); power-loss images keep the cheaper idempotence check.
 var probeAfterRecovery = false
 
+// probeBothOrders runs the second probe order on every image, not only on torn ones (thorough).
+var probeBothOrders = os.Getenv("VERIF_TIER_INTERNAL") == "thorough"
+
 // SetProbeAfterRecovery selects the post-recovery probe for the current leaf.
 func SetProbeAfterRecovery(on bool) { probeAfterRecovery = on }
 
@@ -792,7 +815,7 @@ func filterBad(bad []core.Mismatch, queries []core.Call, qok []bool) []core.Mism
 // probeWrites commits two further transactions on a recovered database and checks that the model
 // (recovered state + probes) holds before and after reopen.  It returns nil or
 // {kind, what, details...}.
-func probeWrites(cfg core.Cfg, in *core.Inst, dir string, queries []core.Call, qok []bool, st *core.State, leaf *Leaf) []string {
+func probeWrites(cfg core.Cfg, in *core.Inst, dir string, queries []core.Call, qok []bool, st *core.State, leaf *Leaf, order int) []string {
 	in.Model = st.Clone()
 	bump(leaf, "post_recovery_probes")
 	big := int(cfg.Seg) - 60
@@ -807,6 +830,14 @@ func probeWrites(cfg core.Cfg, in *core.Inst, dir string, queries []core.Call, q
 		{Kind: "reopen"},
 		{Kind: "update", Calls: []core.Call{{F: "Put", B: "kv", K: "zzp", V: "p1"}}},
 		{Kind: "reopen"},
+	}
+	if order == 1 {
+		probes = []core.Op{
+			{Kind: "update", Calls: []core.Call{{F: "Put", B: "kv", K: "z", V: ""}}},
+			{Kind: "reopen"},
+			{Kind: "update", Calls: []core.Call{{F: "Put", B: "kv", K: "zzq", Big: big}}},
+			{Kind: "reopen"},
+		}
 	}
 	for pi, op := range probes {
 		r := in.Apply(op)
